@@ -22,7 +22,7 @@ RULE = ("trajectories = timed TPV report streams (constant, accelerating, turnin
 ASSUMPTIONS = ["thresholds are compared with 1e-9 hysteresis on the float inputs the code saw; a report arriving exactly at a check instant may be ordered either way",
                "error estimates (epx/epy/epv/epd) are kept in their nominal ranges here; C11 decides what extreme values do to message generation",
                "VAM LF cadence uses the wall clock in the implementation: time.time is the virtual clock, advanced in step with the report timestamps"]
-REQUIRED_COUNTERS = ["cam.messages", "cam.checks_replayed", "cam.must_send_checked", "cam.must_not_send_checked", "cam.lf_checked", "vam.messages", "vam.must_send_checked",
+REQUIRED_COUNTERS = ["cam.messages", "cam.refused_by_lower_layers", "cam.checks_replayed", "cam.must_send_checked", "cam.must_not_send_checked", "cam.lf_checked", "vam.messages", "vam.must_send_checked",
                      "vam.min_gap_checked", "vam.lf_checked"]
 
 ITS_EPOCH_MS = 1072915200000
@@ -86,11 +86,21 @@ def gen_traj(rng, t0, dur, rate_hz, kind):
 
 # ------------------------------------------------------------------------------------------ CAM
 class RecBTP:
-    def __init__(self, clock):
+    """Recording BTP router; `faults` = ordinals of the btp_data_request calls at which the lower layers raise."""
+
+    def __init__(self, clock, faults=()):
         self.clock = clock
         self.reqs = []
+        self.faults = set(faults)
+        self.calls = 0
+        self.failed = []
 
     def btp_data_request(self, request):
+        k = self.calls
+        self.calls += 1
+        if k in self.faults:
+            self.failed.append(self.clock.now())
+            raise RuntimeError("injected fault: lower layers refuse the request")
         self.reqs.append((self.clock.now(), request))
 
     def register_indication_callback_btp(self, port, callback):
@@ -111,7 +121,7 @@ def run_cam_case(c, res):
     random.seed(c["seed"])
     try:
         coder = CAMCoder()
-        btp = RecBTP(clock)
+        btp = RecBTP(clock, c.get("faults") or ())
         vd = ctm.VehicleData(station_id=rng.randrange(1, 1 << 31), station_type=rng.choice((5, 5, 6, 10, 3)), vehicle_role=rng.choice((0, 0, 6)))
         tm = ctm.CAMTransmissionManagement(btp, coder, vd)
         reps = gen_traj(rng, t_base, c["dur"], c["rate"], c["kind"])
@@ -185,6 +195,11 @@ def run_cam_case(c, res):
                 amb = len([r for r in rep_log if abs(r[0] - tc) < 1e-9]) > 0
                 tpv = cur[-1][1]
                 here = [x for x in wsent if abs(x[0] - tc) < 1e-9]
+                # a CAM that the lower layers refused was not handed over: it does not count as a CAM (nor as the last one
+                # that carried the low-frequency container), and the rules keep running from the last one that was
+                attempted = any(abs(tf - tc) < 1e-9 for tf in btp.failed)
+                if attempted:
+                    res.count("cam.refused_by_lower_layers")
                 now_ms = int(tc * 1000)
                 if last is None:
                     verdict = "must"
@@ -225,7 +240,7 @@ def run_cam_case(c, res):
                     verdict = "may"
                 if verdict == "must":
                     res.count("cam.must_send_checked")
-                    if not here:
+                    if not here and not attempted:
                         res.violation(f"C10:cam-not-generated[{why}]", f"no CAM at check +{tc - t_base:.3f} s ({why}); last CAM at +{(last['t'] - t_base) if last else float('nan'):.3f} s", ctx)
                 elif verdict == "must_not":
                     res.count("cam.must_not_send_checked")
@@ -255,7 +270,9 @@ def run_cam_case(c, res):
                     else:
                         since_lf = int(tc * 1000) - int(last["lf_t"] * 1000)
                         if since_lf >= 500 and not has_lf:
-                            res.violation("C10:cam-lf-container-missing-after-500ms", f"{since_lf} ms since the last LF container", ctx)
+                            after_fault = any(last["t"] < tf < tc for tf in btp.failed)
+                            res.violation("C10:cam-lf-container-missing-after-500ms" + ("[after-a-cam-the-lower-layers-refused]" if after_fault else ""),
+                                          f"{since_lf} ms since the last CAM that carried the LF container", ctx)
                         if since_lf < 500 and has_lf:
                             res.violation("C10:cam-lf-container-earlier-than-500ms", f"{since_lf} ms since the last LF container", ctx)
                         lf_t = tc if has_lf else last["lf_t"]
@@ -363,6 +380,9 @@ def gen_case(rng, which):
     dur = rng.choice((6, 12, 30)) if which == "cam" else rng.choice((8, 20, 70))
     c = {"which": which, "seed": rng.randrange(1 << 40), "t0": rng.choice((1709251200.0, wrap_t0)), "dur": dur, "rate": rng.choice((1, 2, 5, 10, 20, 50)), "kind": kind,
          "start": rng.choice((0.0, 0.33, 1.7)), "stop": None, "restart": None}
+    if which == "cam" and rng.random() < 0.35:
+        # fault injection: the lower layers refuse some CAMs (BTP/GN raise out of btp_data_request)
+        c["faults"] = sorted(rng.sample(range(0, 60), rng.randrange(1, 6)))
     if which == "cam" and rng.random() < 0.4:
         c["stop"] = rng.uniform(2.0, dur - 1.0)
         if rng.random() < 0.6:
